@@ -52,6 +52,8 @@ func runC16(c *Ctx) {
 	c.Rule("C16.O5", "E4", "Write/Writev: the queue-empty edge stops and clears the write timer before the unlock", 2)
 	c.Rule("C16.O7", "E4", "DialAsyncTimeout arms the dial timer before the connection is registered with its poller: nothing arms a timer after the registration, when the completion that clears it may already have run", 1)
 	c.Rule("C16.O8", "E4", "the dial completion clears the dial timer before it runs the user's callback: a deadline the callback sets must survive the callback's return", 1)
+	c.Rule("C16.O9", "E5,E4", "who may cancel the write deadline: only setDeadline, teardown, and Write/Writev on their exact queue-empty edge; any other function that clears the write timer must do so on an exact queue-empty edge too", 1)
+	c.Rule("C16.O10", "E4", "Upgrade hands the connection over with the right read deadline on both edges of KeepaliveTime > 0: renewed when positive, cleared (the HTTP keep-alive deadline cancelled) otherwise", 1)
 	c.Rule("C16.O6", "E5,E4", "keep-alive renewal sites exist and pass time.Now().Add(<engine>.KeepaliveTime)", 7)
 
 	L := c.Locks()
@@ -444,6 +446,79 @@ func runC16(c *Ctx) {
 			}
 		}
 		c.Cond(bad == "", "C16.O8", fnKey(c.P, fn, "dial timer cleared before the callback"), c.FnPos(fn), "SetWriteDeadline(zero) precedes onConnected", bad)
+	}
+
+	// ------------------------------------------------------------------ O9
+	{
+		bad := ""
+		n := 0
+		allowed := map[string]bool{"(*nbio.Conn).setDeadline": true, "(*nbio.Conn).closeWithErrorWithoutLock": true, "(*nbio.Conn).closeWithError": true, "(*nbio.Conn).SetDeadline": true, fnWriteAPI: true, fnWritevAPI: true}
+		for _, f := range nb {
+			name := c.P.FuncName(ir.Outermost(f))
+			if allowed[name] {
+				continue
+			}
+			fi := c.P.Info(f)
+			for _, st := range c.P.StoresTo(f, fConnWTimer) {
+				if !ir.IsNilConst(st.Val) {
+					continue
+				}
+				if _, fresh := ir.Root(st.Addr.(*ssa.FieldAddr).X).(*ssa.Alloc); fresh {
+					continue
+				}
+				n++
+				exact := false
+				for _, ft := range fi.Facts(st) {
+					if e, ok := c.queueTest(ft); ok && e && ft.If != nil {
+						if e2, ok2 := c.queueTest(ir.Fact{If: ft.If, Cond: ft.Cond, Truth: !ft.Truth}); ok2 && !e2 {
+							exact = true
+						}
+					}
+				}
+				if !exact {
+					bad = name + " cancels the write deadline at " + c.Pos(st) + " without knowing that nothing is queued: if part of its data was queued (EAGAIN), the backlog is left without a deadline and a stalled peer is never closed"
+				}
+			}
+		}
+		c.Cond(bad == "", "C16.O9", "who may cancel the write deadline", "", fmt.Sprintf("%d clearing site(s) outside setDeadline / teardown / Write / Writev", n), bad)
+	}
+
+	// ------------------------------------------------------------------ O10
+	if up := c.Fn("C16.O10", "(*websocket.Upgrader).Upgrade"); up != nil {
+		fi := c.P.Info(up)
+		var renew, clear int
+		for _, cs := range c.P.Calls(up, func(name string, _ ir.CallSite) bool { return strings.HasSuffix(name, ".SetReadDeadline") }) {
+			if cs.In.Parent() != up {
+				continue
+			}
+			arg := cs.Common.Args[len(cs.Common.Args)-1]
+			pos, known := false, false
+			for _, ft := range fi.Facts(cs.In) {
+				cmp, ok := ir.DecodeIntCmp(ft.Cond)
+				if !ok || !strings.HasSuffix(c.P.LoadedField(cmp.Expr), ".KeepaliveTime") {
+					continue
+				}
+				known = true
+				pos = cmp.Holds(1) == ft.Truth && cmp.Holds(0) != ft.Truth
+			}
+			if !known {
+				continue
+			}
+			if _, isZero := ir.Resolve(arg).(*ssa.Const); isZero && !pos {
+				clear++
+			}
+			if pos && c.isNowPlus(arg, "websocket.commonFields.KeepaliveTime") {
+				renew++
+			}
+		}
+		bad := ""
+		switch {
+		case renew == 0:
+			bad = "Upgrade does not renew the read deadline when KeepaliveTime > 0"
+		case clear == 0:
+			bad = "Upgrade does not clear the read deadline when KeepaliveTime <= 0: the HTTP engine's keep-alive timer stays armed and closes the upgraded connection one keep-alive period after the handshake"
+		}
+		c.Cond(bad == "", "C16.O10", fnKey(c.P, up, "read deadline on both KeepaliveTime edges"), c.FnPos(up), fmt.Sprintf("%d renew, %d clear", renew, clear), bad)
 	}
 
 	// ------------------------------------------------------------------ O6
